@@ -356,77 +356,91 @@ FlagsRight ==
   /\ asc  = (Plain(a) /\ SortedDir(a, 1))
   /\ desc = (Plain(a) /\ SortedDir(a, -1))
 
+\* The laws of MATCH on the machine's vector.  Each is stated for one lookup
+\* value v and its allowed set(s) R, then quantified over all lookup values.
+Special == {{FREE}, {SELF}}
+
 \* the result set is never empty, and holds either one of the special
 \* results alone or positions of the vector
-WellFormed ==
-  \A v \in LookSet : \A t \in {-1, 0, 1} :
-    LET R == MA(v, t)
-    IN  /\ R # {}
-        /\ \/ R \in {{NA}, {FREE}, {SELF}}
-           \/ R \subseteq DOMAIN a
+WellFormedLaw(R) ==
+  /\ R # {}
+  /\ \/ R \in {{NA}, {FREE}, {SELF}}
+     \/ R \subseteq DOMAIN a
 
 \* type 0: the position found holds v, and nothing before it does
-ExactIsFirstEqual ==
-  \A v \in LookSet :
-    LET R == MA(v, 0)
-    IN  R \notin {{FREE}, {SELF}} =>
-          /\ Cardinality(R) = 1
-          /\ \A p \in R :
-               IF p = NA THEN \A i \in DOMAIN a : ~Eq0(v, a[i])
-               ELSE /\ Eq0(v, a[p])
-                    /\ Tag(a[p]) = Tag(v)
-                    /\ \A i \in 1..(p - 1) : ~Eq0(v, a[i])
+ExactLaw(v, R) ==
+  R \notin Special =>
+    /\ Cardinality(R) = 1
+    /\ \A p \in R :
+         IF p = NA THEN \A i \in DOMAIN a : ~Eq0(v, a[i])
+         ELSE /\ Eq0(v, a[p])
+              /\ Tag(a[p]) = Tag(v)
+              /\ \A i \in 1..(p - 1) : ~Eq0(v, a[i])
 
 \* types 1 / -1 on sorted data: every allowed position holds a value of v's
 \* type on the right side of v, and no cell of that type lies strictly
 \* between it and v; #N/A exactly when no cell of v's type is on that side
-ApproxIsBest ==
-  \A v \in LookSet : \A t \in {-1, 1} :
-    LET R == MA(v, t)
-        Side(i) == IF t = 1 THEN Leq(a[i], v) ELSE Leq(v, a[i])
-    IN  R \notin {{FREE}, {SELF}} =>
-          IF R = {NA}
-          THEN \A i \in DOMAIN a : Tag(a[i]) = Tag(v) => ~Side(i)
-          ELSE \A p \in R :
-                 /\ Tag(a[p]) = Tag(v) /\ Side(p)
-                 /\ \A i \in DOMAIN a :
-                      (Tag(a[i]) = Tag(v) /\ Side(i)) =>
-                         IF t = 1 THEN Leq(a[i], a[p]) ELSE Leq(a[p], a[i])
+ApproxLaw(v, t, R) ==
+  LET Side(i) == IF t = 1 THEN Leq(a[i], v) ELSE Leq(v, a[i])
+  IN  R \notin Special =>
+        IF R = {NA}
+        THEN \A i \in DOMAIN a : Tag(a[i]) = Tag(v) => ~Side(i)
+        ELSE \A p \in R :
+               /\ Tag(a[p]) = Tag(v) /\ Side(p)
+               /\ \A i \in DOMAIN a :
+                    (Tag(a[i]) = Tag(v) /\ Side(i)) =>
+                       IF t = 1 THEN Leq(a[i], a[p]) ELSE Leq(a[p], a[i])
 
 \* if an exact match exists (without wildcards) the approximate types find
 \* an equal value too
-ApproxFindsExact ==
-  \A v \in LookSet : \A t \in {-1, 1} :
-    LET R == MA(v, t)
-    IN  (R \notin {{FREE}, {SELF}} /\ \E i \in DOMAIN a :
-            Tag(a[i]) = Tag(v) /\ SameValue(a[i], v))
-        => \A p \in R : p # NA /\ SameValue(a[p], v)
+FindsExactLaw(v, R) ==
+  (R \notin Special /\ \E i \in DOMAIN a :
+      Tag(a[i]) = Tag(v) /\ SameValue(a[i], v))
+  => \A p \in R : p # NA /\ SameValue(a[p], v)
 
 \* the binary search of the implementation style refines the relation
-BinarySearchOK ==
-  \A v \in LookSet :
-    LET R == MA(v, 1)
-    IN  R \notin {{FREE}, {SELF}} => BinarySearch(v, a) \in R
+BinarySearchLaw(v, R1) ==
+  R1 \notin Special => BinarySearch(v, a) \in R1
 
 \* types 1 and -1 sandwich v: on an ascending vector a (type 1) and on the
 \* same cells in descending order (type -1) the two answers hold neighbouring
 \* values of v's type with v in between, and both are #N/A only if the
 \* vector holds no value of v's type at all
-Sandwich ==
+SandwichLaw(v, R1) ==
+  LET b == Reverse(a)
+      S == MatchRel(v, b, -1, asc)     \* b descends iff a ascends
+  IN  /\ (R1 \in Special) = (S \in Special)
+      /\ R1 \notin Special =>
+           /\ (R1 = {NA} /\ S = {NA}) =>
+                 \A i \in DOMAIN a : Tag(a[i]) # Tag(v)
+           /\ (R1 # {NA} /\ S # {NA}) =>
+                 \A p \in R1 : \A q \in S :
+                   /\ Leq(a[p], v) /\ Leq(v, b[q])
+                   /\ \A i \in DOMAIN a : Tag(a[i]) = Tag(v) =>
+                        (Leq(a[i], a[p]) \/ Leq(b[q], a[i]))
+
+\* the laws one by one (for checking them separately) ...
+WellFormed        == \A v \in LookSet : \A t \in {-1, 0, 1} : WellFormedLaw(MA(v, t))
+ExactIsFirstEqual == \A v \in LookSet : ExactLaw(v, MA(v, 0))
+ApproxIsBest      == \A v \in LookSet : \A t \in {-1, 1} : ApproxLaw(v, t, MA(v, t))
+ApproxFindsExact  == \A v \in LookSet : \A t \in {-1, 1} : FindsExactLaw(v, MA(v, t))
+BinarySearchOK    == \A v \in LookSet : BinarySearchLaw(v, MA(v, 1))
+Sandwich          == \A v \in LookSet : SandwichLaw(v, MA(v, 1))
+
+\* ... and all of them with every allowed set computed once per lookup
+\* value (this is what the configurations check: same laws, a third of the
+\* evaluations)
+MatchLaws ==
   \A v \in LookSet :
-    LET b == Reverse(a)
-        R == MA(v, 1)
-        S == MatchRel(v, b, -1, asc)     \* b descends iff a ascends
-        Special == {{FREE}, {SELF}}
-    IN  /\ (R \in Special) = (S \in Special)
-        /\ R \notin Special =>
-             /\ (R = {NA} /\ S = {NA}) =>
-                   \A i \in DOMAIN a : Tag(a[i]) # Tag(v)
-             /\ (R # {NA} /\ S # {NA}) =>
-                   \A p \in R : \A q \in S :
-                     /\ Leq(a[p], v) /\ Leq(v, b[q])
-                     /\ \A i \in DOMAIN a : Tag(a[i]) = Tag(v) =>
-                          (Leq(a[i], a[p]) \/ Leq(b[q], a[i]))
+    LET Rm == MA(v, -1)
+        R0 == MA(v, 0)
+        R1 == MA(v, 1)
+    IN  /\ WellFormedLaw(Rm) /\ WellFormedLaw(R0) /\ WellFormedLaw(R1)
+        /\ ExactLaw(v, R0)
+        /\ ApproxLaw(v, -1, Rm) /\ ApproxLaw(v, 1, R1)
+        /\ FindsExactLaw(v, Rm) /\ FindsExactLaw(v, R1)
+        /\ BinarySearchLaw(v, R1)
+        /\ SandwichLaw(v, R1)
 
 \* how the allowed sets grow when one cell is appended (the inductive
 \* reading of the linear scan)
@@ -436,10 +450,10 @@ AppendLaw ==
             c  == a'[n]
             R0 == MA(v, 0)     R0n == MatchRel(v, a', 0, FALSE)
             R1 == MA(v, 1)     R1n == MatchRel(v, a', 1, asc')
-        IN  /\ (R0 \notin {{FREE}, {SELF}} /\ R0n \notin {{FREE}, {SELF}}) =>
+        IN  /\ (R0 \notin Special /\ R0n \notin Special) =>
                  R0n = IF R0 # {NA} THEN R0
                        ELSE IF Eq0(v, c) THEN {n} ELSE {NA}
-            /\ (R1 \notin {{FREE}, {SELF}} /\ R1n \notin {{FREE}, {SELF}}) =>
+            /\ (R1 \notin Special /\ R1n \notin Special) =>
                  R1n = IF Tag(c) = Tag(v) /\ Leq(c, v)
                        THEN IF R1 # {NA} /\ \A p \in R1 : SameValue(a[p], c)
                             THEN R1 \cup {n} ELSE {n}
